@@ -827,7 +827,9 @@ def check_tle(out, rng, l1, l2, info, offsets):
                      inp, observed=got, expected=exp, dpos_m=dp, tol_m=tol_pos(speed))
         # 2. timedelta argument = the same instant
         if label == "UTC":
-            got2 = [float(x) for x in orb.propagate(timedelta(microseconds=off))]
+            with probe("wrapper").watch() as pw:
+                got2 = [float(x) for x in orb.propagate(timedelta(microseconds=off))]
+            tally_branches(out, "branch-wrapper", pw.outcomes())
             dp, dv = dist(got2, exp)
             out.count(key=(l1, off, "td"), nontrivial=off != 0, kind="wrapper-timedelta")
             if not (dp <= tol_pos(speed) and dv <= acc * 50e-6 + 1e-9):
